@@ -58,3 +58,12 @@ CASES += [
       "        k = 0\n        for nn in self.elsignature:\n            en += \\\n            self.convert_energy_2_current_u(\n                    self.aggregate.monomers[k].elenergies[nn])\n            k += 1\n            \n        return en",
       "        for k, nn in enumerate(self.elsignature):\n            en += \\\n            self.convert_energy_2_current_u(\n                    self.aggregate.monomers[k].elenergies[nn])\n\n        return en"),
 ]
+
+CASES += [
+    m("connecting vector scaled in place (fails for whole-number positions)", "C03-A", I,
+      "    R = r1 - r2\n    RR = np.sqrt(np.dot(R,R))\n    \n    prf = 1.0/(4.0*const.pi*eps0_int)\n    \n    cc = (np.dot(d1,d2)/(RR**3)\n        - 3.0*np.dot(d1,R)*np.dot(d2,R)/(RR**5))",
+      "    R = r1 - r2\n    RR = np.sqrt(np.dot(R,R))\n    R *= 1.0/RR\n    \n    prf = 1.0/(4.0*const.pi*eps0_int)\n    \n    cc = (np.dot(d1,d2)\n        - 3.0*np.dot(d1,R)*np.dot(d2,R))/(RR**3)"),
+    t("unit vector as a new array", I,
+      "    R = r1 - r2\n    RR = np.sqrt(np.dot(R,R))\n    \n    prf = 1.0/(4.0*const.pi*eps0_int)\n    \n    cc = (np.dot(d1,d2)/(RR**3)\n        - 3.0*np.dot(d1,R)*np.dot(d2,R)/(RR**5))",
+      "    R = r1 - r2\n    RR = np.sqrt(np.dot(R,R))\n    nn = R/RR\n    \n    prf = 1.0/(4.0*const.pi*eps0_int)\n    \n    cc = (np.dot(d1,d2)\n        - 3.0*np.dot(d1,nn)*np.dot(d2,nn))/(RR**3)"),
+]
